@@ -170,7 +170,7 @@ func searchMode(t *testing.T) {
 		}
 		sort.Strings(ing)
 		out.Violations = append(out.Violations, &ReplayFile{Property: prop, Oracle: oracle, Detail: detail, Tier: *fTier, Seed: *fSeed, Run: curRun,
-			Disabled: disabledList(dis), Config: w.cfg, Decisions: curCh.Rec, LogHash: hex8(w.hasher.Sum(nil)), Ingredients: ing, OrigLen: len(curCh.Rec), NoMinimise: true})
+			Disabled: disabledList(dis), Config: w.cfg, Decisions: curCh.Rec, LogHash: flushedHash(w), Ingredients: ing, OrigLen: len(curCh.Rec), NoMinimise: true})
 		finish()
 	}
 	for r, k := *fFrom, uint64(0); k < *fMaxRuns; r, k = r+*fStride, k+1 {
@@ -282,7 +282,7 @@ func replayMode(t *testing.T) {
 	rf := loadReplay(t)
 	ch := NewReplayChooser(rf.Decisions, true)
 	spinOnFire = func(w *World, prop, oracle, detail string) {
-		o := &ReplayOut{LogHash: hex8(w.hasher.Sum(nil)), Diverged: ch.Diverged, Property: prop, Oracle: oracle, Detail: detail}
+		o := &ReplayOut{LogHash: flushedHash(w), Diverged: ch.Diverged, Property: prop, Oracle: oracle, Detail: detail}
 		o.Reproduced = prop != "" && prop == rf.Property && oracle == rf.Oracle
 		o.SameHash = o.LogHash == rf.LogHash
 		if prop == "" {
@@ -410,4 +410,9 @@ func tapeSum(t []Decision) int {
 		s += d.V
 	}
 	return s
+}
+
+func flushedHash(w *World) string {
+	w.flushEvents()
+	return hex8(w.hasher.Sum(nil))
 }
